@@ -33,6 +33,17 @@ type CarrierCase struct {
 	Size   int          `json:"size"`
 	Parts  int          `json:"parts"`
 	Seed   int64        `json:"seed"`
+	Reuse  bool         `json:"reuse"` // head on a queued channel: the sender is held back, the caller overwrites its buffers right after Write returned
+}
+
+// heldExecutor starts what it is given only once released.
+type heldExecutor struct{ release chan struct{} }
+
+func (h heldExecutor) Exec(fn func()) {
+	go func() {
+		<-h.release
+		fn()
+	}()
 }
 
 type CarrierEvent struct {
@@ -119,6 +130,10 @@ func (p carrierProbe) HandleException(ctx netty.ExceptionContext, ex netty.Excep
 }
 
 func newCarrierChannel(async bool) (netty.Channel, *mock.Transport, *[]error) {
+	return newCarrierChannelExec(async, netty.AsyncExecutor())
+}
+
+func newCarrierChannelExec(async bool, ex netty.Executor) (netty.Channel, *mock.Transport, *[]error) {
 	netty.VerifHook = nil
 	tr := mock.NewTransport(nil)
 	pl := netty.NewPipeline()
@@ -126,9 +141,9 @@ func newCarrierChannel(async bool) (netty.Channel, *mock.Transport, *[]error) {
 	pl.AddLast(carrierProbe{&exc})
 	var ch netty.Channel
 	if async {
-		ch = netty.NewAsyncWriteChannel(4, true)(1, context.Background(), pl, tr, netty.AsyncExecutor())
+		ch = netty.NewAsyncWriteChannel(4, true)(1, context.Background(), pl, tr, ex)
 	} else {
-		ch = netty.NewChannel()(1, context.Background(), pl, tr, netty.AsyncExecutor())
+		ch = netty.NewChannel()(1, context.Background(), pl, tr, ex)
 	}
 	go pl.ServeChannel(ch)
 	for i := 0; pl.Channel() == nil && i < 1000000; i++ {
@@ -270,17 +285,30 @@ func runCarrierCase(c *CarrierCase) *CarrierResult {
 		}
 		res.Events = append(res.Events, ev)
 	case "head":
-		ch, tr, exc := newCarrierChannel(c.Async)
+		var held heldExecutor
+		var ch netty.Channel
+		var tr *mock.Transport
+		var exc *[]error
+		if c.Reuse && c.Async {
+			held = heldExecutor{make(chan struct{})}
+			ch, tr, exc = newCarrierChannelExec(true, held)
+		} else {
+			ch, tr, exc = newCarrierChannel(c.Async)
+		}
 		data := content(c.Seed, c.Size)
 		var msg netty.Message
+		var mine []byte // the caller's own memory behind the message
 		supported := true
 		switch c.Kind {
 		case "bytes":
-			msg = append([]byte(nil), data...)
+			mine = append([]byte(nil), data...)
+			msg = mine
 		case "vec":
-			msg = splitParts(append([]byte(nil), data...), c.Parts)
+			mine = append([]byte(nil), data...)
+			msg = splitParts(mine, c.Parts)
 		case "buffer":
-			msg = bytes.NewBuffer(append([]byte(nil), data...))
+			mine = append([]byte(nil), data...)
+			msg = bytes.NewBuffer(mine)
 		case "writerto":
 			msg = multiWriterTo{splitParts(append([]byte(nil), data...), c.Parts)}
 		case "reader":
@@ -297,6 +325,13 @@ func runCarrierCase(c *CarrierCase) *CarrierResult {
 			msg, supported = nil, false
 		}
 		werr := ch.Write(msg)
+		if held.release != nil {
+			// Write has returned: the buffers are the caller's again
+			for i := range mine {
+				mine[i] = 0xEE
+			}
+			close(held.release)
+		}
 		want := 0
 		if supported {
 			want = len(data)
@@ -362,6 +397,46 @@ func runCarrierCase(c *CarrierCase) *CarrierResult {
 				} else if got, _ := io.ReadAll(r); !bytes.Equal(got, data) {
 					fail("toreader/"+name, fmt.Sprintf("utils.ToReader(%s, %d bytes) yields %d bytes", name, len(data), len(got)))
 				}
+			}
+		}
+		// the same input object converted twice (a message sent to two channels): the conversion must not use it up
+		for name, mk := range map[string]func() interface{}{
+			"bytes":  func() interface{} { return append([]byte(nil), data...) },
+			"vec":    func() interface{} { return splitParts(append([]byte(nil), data...), 3) },
+			"string": func() interface{} { return string(data) },
+		} {
+			in := mk()
+			for round := 1; round <= 2; round++ {
+				r, err := utils.ToReader(in)
+				if err != nil {
+					fail("toreader/"+name, fmt.Sprintf("utils.ToReader(%s) failed: %v", name, err))
+					break
+				}
+				if got, _ := io.ReadAll(r); !bytes.Equal(got, data) {
+					fail("toreader/reuse-"+name, fmt.Sprintf("conversion #%d of the same %s (%d bytes) with utils.ToReader yields %d bytes", round, name, len(data), len(got)))
+				}
+				if b, err := utils.ToBytes(in); err != nil || !bytes.Equal(b, data) {
+					fail("tobytes/reuse-"+name, fmt.Sprintf("utils.ToBytes of the same %s after %d reader conversions returned %d of %d bytes, err %v", name, round, len(b), len(data), err))
+				}
+			}
+		}
+		// a multi-segment reader whose first segment is a view into a longer record: what follows the view in the
+		// record is live data and must survive StealBytes / ToBytes
+		if len(data) >= 2 {
+			k := 1 + rnd.Intn(len(data)-1)
+			record := append(append([]byte(nil), data[:k]...), []byte("LIVE-DATA-BEHIND-THE-FIRST-SEGMENT")...)
+			keep := append([]byte(nil), record...)
+			mr := func() io.Reader { return io.MultiReader(bytes.NewReader(record[:k]), bytes.NewReader(append([]byte(nil), data[k:]...))) }
+			if wt, ok := mr().(io.WriterTo); ok {
+				if b, err := utils.StealBytes(wt); err != nil || !bytes.Equal(b, data) {
+					fail("stealbytes/segmented", fmt.Sprintf("utils.StealBytes(two-segment reader, %d bytes) returned %d bytes, err %v", len(data), len(b), err))
+				}
+			}
+			if b, err := utils.ToBytes(mr()); err != nil || !bytes.Equal(b, data) {
+				fail("tobytes/segmented", fmt.Sprintf("utils.ToBytes(two-segment reader, %d bytes) returned %d bytes, err %v", len(data), len(b), err))
+			}
+			if !bytes.Equal(record, keep) {
+				fail("stealbytes/input-modified", "collecting a two-segment reader overwrote the caller's memory behind the first segment")
 			}
 		}
 		// blocks that are views of one over-allocated buffer with a foreign block in between (header,
